@@ -9,7 +9,7 @@ def run(ctx):
                 "with the model; B2: random (w,m), m<=w<=31, every next() of the real KmerMinimiserGenerator validated incl. "
                 "internal state and w-mers as 32-digit words. non-trivial = input with at least one emitted run")
     ctx.trusted += ["harness enumeration order = TLC's index", "TLC, Json/IOUtils community modules"]
-    L = 9 if ctx.thorough() else 7
+    L = 8 if ctx.thorough() else 7
     for (w, m) in [(1, 1), (2, 1), (3, 1), (3, 2), (4, 2), (4, 4), (5, 3)]:
         if not mc.mc_table(ctx, w, m, L):
             return
